@@ -31,6 +31,7 @@ import IrVerif.Lemmas.CloneResidue
 import IrVerif.Lemmas.CloneTotal
 import IrVerif.Lemmas.CloneWire
 import IrVerif.Lemmas.CloneModelTotal
+import IrVerif.Lemmas.CloneFrame3
 namespace IrVerif.Clone
 
 /-! ### what "the objects of a clone" are -/
@@ -1743,5 +1744,346 @@ example : isOk (run (graphClone 4 true 0) exLater).1 = true ∧
   decide +kernel
 example : verdictKind (cloneVerdict 4 false exLater 0) =
     "raised: sharding spec targets an outer-scope value" := by decide +kernel
+
+
+/-! ### C13_functionalize_any: `functionalize` of ANY pass (round 3b)
+
+`functionalizeAny fuel ps steps m w` (Model/Clone2.lean) is `functionalize(P)(model)` for a pipeline
+`P = Sequential(*passes)` / `PassManager(passes, steps)`: `_FunctionalPassWrapper.call` clones the
+model — always, it does not look at what `P` declares about itself — and runs `P` on the clone.  A
+stage is ANY function from the model it is handed (and the heap it finds) to a history of the 44
+editing calls, optionally followed by building a NEW `ir.Model` around the graph and functions of
+the model it was handed; its declared flags (`in_place`, `changes_input`) are arbitrary, and so are
+the flags `Sequential` derives from them (first pass only for `changes_input`). -/
+
+theorem rewrapModel_frame {B : Nat → Prop} {wB : World} {s : St} (header m : Nat)
+    (hI : FInv true true B wB s) :
+    FGoodAt true true B wB (rewrapModel header m) s (fun _ _ => True) := by
+  unfold rewrapModel
+  fbind (FGoodAt.readModel hI) with ms s1 hI1 hl1 hq1
+  have hcp : FGoodAt true true B wB (copyProps ms.props) s1 (fun r _ => ¬ B r) := by
+    unfold copyProps
+    fbind (FGoodAt.readDict hI1) with d s2 hI2 hl2 hq2
+    exact (FGoodAt.alloc hI2 (c := .dict { data := d.data, invalid := [] }) trivial).mono
+      (fun _ _ _ _ h => h.1)
+  fbind hcp with pr s2 hI2 hl2 hpr
+  fbind (FGoodAt.alloc hI2 (c := .dict {}) trivial) with me s3 hI3 hl3 hme
+  exact (FGoodAt.alloc hI3 (c := .model ⟨ms.graph, ms.funcs, header, ms.dev, pr, me⟩) ⟨hpr, hme.1⟩).mono
+    (fun _ _ _ _ _ => trivial)
+
+theorem callChecked_snd (d : Decl) (m : Nat) (r : Except Err Nat × World) : (callChecked d m r).2 = r.2 := by
+  rcases r with ⟨x, w⟩
+  cases x with
+  | error e => rfl
+  | ok m1 =>
+    simp only [callChecked]
+    split
+    · rfl
+    · split <;> rfl
+
+theorem runStages_inv {B : Nat → Prop} {wB : World} :
+    ∀ (ps : List (Decl × Stage)) (m : Nat) (w : World), FInv true true B wB { w := w } →
+      (∀ p ∈ ps, ∀ m' w1, ∀ e ∈ p.2.edits m' w1, ArgsOut2 B e) →
+      FInv true true B wB { w := (runStages ps m w).2 }
+  | [], _, _, h, _ => h
+  | p :: rest, m, w, h, ha => by
+    have hed := runHistory2_inv (strict := true) (p.2.edits m w) w h (ha p List.mem_cons_self m w)
+    have hst : FInv true true B wB { w := (runStage p.1 p.2 m w).2 } := by
+      unfold runStage
+      rw [callChecked_snd]
+      cases hp : p.2 with
+      | inPlace edits => rw [hp] at hed; exact hed
+      | rewrap edits header =>
+        rw [hp] at hed
+        simp only [Stage.edits] at hed
+        have := (rewrapModel_frame header m hed).1
+        simp only [run]
+        exact this.restart
+    unfold runStages
+    rcases hr : runStage p.1 p.2 m w with ⟨x, w1⟩
+    rw [hr] at hst
+    cases x with
+    | error e => exact hst
+    | ok m1 => exact runStages_inv rest m1 w1 hst (fun q hq => ha q (List.mem_cons_of_mem _ hq))
+
+/-- **C13_functionalize_any**.  `functionalize(P)(model)` for ANY pipeline `P` of passes: whatever
+    the stages do — any history of the 44 editing calls on objects that did not exist before the
+    call (the clone's objects, which is all a pass can reach from the model it is handed, and the
+    objects the passes create), each stage possibly returning a NEW `ir.Model` that shares the graph
+    and the functions of the model it was handed — whatever flags the passes declare and `Sequential`
+    / `PassManager` derive from them, however many steps, whether a stage or a `PassBase.__call__`
+    check raises half-way: the input model and everything else that existed before the call is
+    unchanged, cell for cell (except the name of shared tensor objects, D113); and it stays so under
+    every later history `es2` of editing calls on the returned model's objects.  The reason is the
+    unconditional `model.clone()` in `_FunctionalPassWrapper.call`. -/
+theorem C13_functionalize_any {w w' : World} {fuel m steps : Nat} {r : Except Err Nat}
+    (ps : List (Decl × Stage)) (hwf : wellFormed w = true)
+    (h : functionalizeAny fuel ps steps m w = (r, w'))
+    (hargs : ∀ p ∈ ps, ∀ m' w1, ∀ e ∈ p.2.edits m' w1, ∀ a ∈ e.args, ¬ Protected w a)
+    (es2 : List Edit2) (hargs2 : ∀ e ∈ es2, ∀ a ∈ e.args, ¬ Protected w a) :
+    ∀ i, Protected w i → (runHistory2 es2 w').2[i]? = w[i]? := by
+  unfold functionalizeAny at h
+  rcases hrun : run (modelClone fuel m) w with ⟨r1, w1⟩
+  rw [hrun] at h
+  have hres := (CloneResult.of_good (fun s hI => modelClone_good fuel m hI) hrun).1
+  -- the frame invariant after cloning
+  have hsep : ∀ (i : Nat) (c : Cell), ¬ Protected w i → w1[i]? = some c →
+      CellOutX true true (Protected w) c := by
+    intro i c hni hc
+    rcases Nat.lt_or_ge i w.length with hlt | hge
+    · have hct : ConstTarget w i := Classical.byContradiction (fun hn => hni ⟨hlt, hn⟩)
+      obtain ⟨nm, hnm⟩ := constTarget_tensor hwf hct
+      have := hres.oldEq rfl i _ hnm
+      rw [hc] at this
+      cases this
+      trivial
+    · exact cellOutX_of_cellOk (hres.cells i c hge hc)
+  have hI1 : FInv true true (Protected w) w1 { w := w1 } :=
+    ⟨fun i hi => Nat.lt_of_lt_of_le hi.1 hres.grows, fun _ _ => OptRel.refl _ _ _, hsep⟩
+  have hfin : FInv true true (Protected w) w1 { w := w' } := by
+    cases r1 with
+    | error e =>
+      simp only [Prod.mk.injEq] at h
+      obtain ⟨_, rfl⟩ := h
+      exact hI1
+    | ok m' =>
+      simp only at h
+      have hw' : w' = (runStages (List.replicate steps ps).flatten m' w1).2 := by
+        have := congrArg Prod.snd h
+        simp only [callChecked_snd, runPipeline] at this
+        exact this.symm
+      rw [hw']
+      refine runStages_inv _ m' w1 hI1 ?_
+      intro p hp
+      obtain ⟨l, hl, hpl⟩ := List.mem_flatten.mp hp
+      have := List.eq_of_mem_replicate hl
+      subst this
+      exact hargs p hpl
+  have hfin2 := (runHistory2_inv (strict := true) es2 w' hfin hargs2).same
+  intro i hi
+  have h1 := hfin2 i hi
+  simp only at h1
+  have hold : w1[i]? = w[i]? := by
+    have := hres.oldEq rfl i _ (List.getElem?_eq_getElem hi.1)
+    rw [this, List.getElem?_eq_getElem hi.1]
+  rw [hold] at h1
+  cases hw : w[i]? with
+  | none =>
+    rw [hw] at h1
+    cases h2 : (runHistory2 es2 w').2[i]? with
+    | none => rfl
+    | some c => rw [h2] at h1; exact h1.elim
+  | some c0 =>
+    rw [hw] at h1
+    cases h2 : (runHistory2 es2 w').2[i]? with
+    | none => rw [h2] at h1; exact h1.elim
+    | some c =>
+      rw [h2] at h1
+      have : c = c0 := by simpa [OptRel, CellRel] using h1
+      rw [this]
+
+/-- the pipeline `Sequential(functional stamp, in-place pass)` DECLARES itself functional
+    (`in_place = False`, `changes_input = False`) although it edits the graph of the model it is
+    handed: the declaration is no reason to skip the clone -/
+example : seqDecl [(⟨false, false⟩, .rewrap (fun _ _ => []) 0), (⟨true, true⟩, .inPlace (fun _ _ => []))] =
+    ⟨false, false⟩ := by decide
+
+/-- non-vacuity on `exModel`: the pipeline [stamp; in-place stage editing the clone's graph (cell 29:
+    the cloned main graph is the first cell the clone allocates... its doc string)] runs, returns a new
+    model object, and changes the clone -/
+def exPipeline : List (Decl × Stage) :=
+  [(⟨false, false⟩, .rewrap (fun _ _ => []) 7),
+   (⟨true, true⟩, .inPlace (fun m w => match w[m]? with
+      | some (.model ms) => [.base (.setGraphDoc ms.graph (some "edited"))]
+      | _ => []))]
+
+example : isOk (functionalizeAny 4 exPipeline 1 28 exModel).1 = true := by decide +kernel
+
+def graphDocs (w : World) : List (Option String) :=
+  w.filterMap fun c => match c with
+    | .graph g => some g.doc
+    | _ => none
+
+example : graphDocs (functionalizeAny 4 exPipeline 1 28 exModel).2 = [none, none, some "edited", none] := by
+  decide +kernel
+
+
+/-! ### C13_frame over the third alphabet `Edit3` (round 3b)
+
+`Edit3` (Model/Clone2.lean) = the 44 calls of `Edit2` plus `graph.sort()` on graphs whose nodes hold
+subgraphs (`sortDeep`: property C12's `Sort.sortModel` on the tree of the nest, every graph of the
+nest re-linked), `graph.inputs[a:b] = vs`, `graph.outputs[a:b] = vs`, `graph.initializers.pop(k)`,
+`.clear()`, `.update(items)`, `graph.extend(nodes)`, `graph.remove(nodes, safe=True)`,
+`convenience.replace_all_uses_with(values, replacements, ..)` with several pairs (checks of all pairs
+first, as after fix c936126), `convenience.rename_values(values, names)` and
+`convenience.replace_nodes_and_values` (replacing one node by a freshly built one: the new outputs take
+over type object, shape object, constant and name of the old ones, the users are rewired, the new node
+is inserted after the old one, which is removed with `safe=True`): 55 calls. -/
+
+theorem runHistory3_inv {strict : Bool} {B : Nat → Prop} {wB : World} :
+    ∀ (es : List Edit3) (w : World), FInv true strict B wB { w := w } → (∀ e ∈ es, ArgsOut3 B e) →
+      FInv true strict B wB { w := (runHistory3 es w).2 }
+  | [], _, h, _ => h
+  | e :: es, w, h, ha => by
+    have h1 := (applyEdit3_frame e h (ha e List.mem_cons_self)).1
+    unfold runHistory3 run
+    rcases hm : applyEdit3 e { w := w } with ⟨r, s1⟩
+    rw [hm] at h1
+    simp only
+    have h2 := runHistory3_inv es s1.w h1.restart (fun e' he' => ha e' (List.mem_cons_of_mem _ he'))
+    rcases hr : runHistory3 es s1.w with ⟨rs, w2⟩
+    rw [hr] at h2
+    exact h2
+
+/-- **C13_frame_ext3** (general form, third alphabet).  Let `B` be any set of cells of a heap `w`
+    such that no cell outside `B` has a pointer into `B` among the pointers the editing calls follow
+    (as in `C13_frame_ext`).  Then for EVERY history of the 55 calls of `Edit3` whose receivers and
+    arguments are outside `B` (for `sort`: the graph and the graphs nested in it) — however long,
+    whether the calls succeed or raise half-way — every cell of `B` is afterwards exactly what it
+    was. -/
+theorem C13_frame_ext3 (B : Nat → Prop) (w : World) (es : List Edit3)
+    (hb : ∀ i, B i → i < w.length)
+    (hsep : ∀ (i : Nat) (c : Cell), ¬ B i → w[i]? = some c → CellOutX true true B c)
+    (hargs : ∀ e ∈ es, ∀ a ∈ e.args, ¬ B a) :
+    ∀ i, B i → (runHistory3 es w).2[i]? = w[i]? := by
+  intro i hi
+  have := (runHistory3_inv (strict := true) (wB := w) es w
+    ⟨hb, fun _ _ => OptRel.refl _ _ _, hsep⟩ hargs).same i hi
+  simp only at this
+  cases h1 : w[i]? with
+  | none =>
+    rw [h1] at this
+    cases h2 : (runHistory3 es w).2[i]? with
+    | none => rfl
+    | some c => rw [h2] at this; exact this.elim
+  | some c0 =>
+    rw [h1] at this
+    cases h2 : (runHistory3 es w).2[i]? with
+    | none => rw [h2] at this; exact this.elim
+    | some c =>
+      rw [h2] at this
+      have : c = c0 := by simpa [OptRel, CellRel] using this
+      rw [this]
+
+theorem frame_clone_edited_ext3 {w w' : World} (hwf : wellFormed w = true) (hres : CloneResult w false w')
+    (es : List Edit3) (hargs : ∀ e ∈ es, ∀ a ∈ e.args, ¬ Protected w a) :
+    ∀ i, Protected w i → (runHistory3 es w').2[i]? = w[i]? := by
+  intro i hi
+  have hsep : ∀ (i : Nat) (c : Cell), ¬ Protected w i → w'[i]? = some c →
+      CellOutX true true (Protected w) c := by
+    intro i c hni hc
+    rcases Nat.lt_or_ge i w.length with hlt | hge
+    · have hct : ConstTarget w i := Classical.byContradiction (fun hn => hni ⟨hlt, hn⟩)
+      obtain ⟨nm, hnm⟩ := constTarget_tensor hwf hct
+      have := hres.oldEq rfl i _ hnm
+      rw [hc] at this
+      cases this
+      trivial
+    · exact cellOutX_of_cellOk (hres.cells i c hge hc)
+  have := C13_frame_ext3 (Protected w) w' es (fun i hi => Nat.lt_of_lt_of_le hi.1 hres.grows) hsep hargs i hi
+  rw [this]
+  exact hres.oldEq rfl i _ (List.getElem?_eq_getElem hi.1) ▸ (List.getElem?_eq_getElem hi.1).symm ▸ rfl
+
+/-- **C13_frame_clone_edited_ext3** (`Graph.clone()`, `GraphView.clone()`): after cloning, every
+    history of the 55 editing calls applied to objects that did not exist before leaves every
+    pre-existing cell (except the shared tensor objects) exactly as it was before cloning. -/
+theorem C13_frame_clone_edited_ext3 {w w' : World} {fuel g : Nat} {r : Except Err Nat}
+    (hwf : wellFormed w = true)
+    (h : run (graphClone fuel false g) w = (r, w')) (es : List Edit3)
+    (hargs : ∀ e ∈ es, ∀ a ∈ e.args, ¬ Protected w a) :
+    ∀ i, Protected w i → (runHistory3 es w').2[i]? = w[i]? :=
+  frame_clone_edited_ext3 hwf (CloneResult.of_good (fun s hI => graphClone_good fuel g hI) h).1 es hargs
+
+/-- **C13_functionalize_ext3**: `C13_functionalize` for wrapped passes that use the third alphabet
+    (`functionalize3`). -/
+theorem C13_functionalize_ext3 {w w' : World} {fuel m : Nat} {r : Except Err Nat}
+    (pass : Nat → World → List Edit3) (hwf : wellFormed w = true)
+    (h : functionalize3 fuel pass m w = (r, w'))
+    (hargs : ∀ m' w1, ∀ e ∈ pass m' w1, ∀ a ∈ e.args, ¬ Protected w a) :
+    ∀ i, Protected w i → w'[i]? = w[i]? := by
+  unfold functionalize3 at h
+  rcases hrun : run (modelClone fuel m) w with ⟨r1, w1⟩
+  rw [hrun] at h
+  have hres := (CloneResult.of_good (fun s hI => modelClone_good fuel m hI) hrun).1
+  cases r1 with
+  | ok m' =>
+    simp only [Prod.mk.injEq] at h
+    obtain ⟨_, rfl⟩ := h
+    exact frame_clone_edited_ext3 hwf hres (pass m' w1) (hargs m' w1)
+  | error e =>
+    simp only [Prod.mk.injEq] at h
+    obtain ⟨_, rfl⟩ := h
+    intro i hi
+    exact hres.oldEq rfl i _ (List.getElem?_eq_getElem hi.1) ▸ (List.getElem?_eq_getElem hi.1).symm ▸ rfl
+
+theorem frame_orig_edited_ext3 {w w' : World} (hwf : wellFormed2 w = true) (hres : CloneResult w false w')
+    (es : List Edit3) (hargs : ∀ e ∈ es, ∀ a ∈ e.args, ¬ (w.length ≤ a ∧ a < w'.length)) :
+    ∀ i, w.length ≤ i → i < w'.length → (runHistory3 es w').2[i]? = w'[i]? := by
+  intro i h1 h2
+  refine C13_frame_ext3 (fun i => w.length ≤ i ∧ i < w'.length) w' es (fun i hi => hi.2) ?_ hargs i ⟨h1, h2⟩
+  intro j c hj hc
+  have hjlt : j < w.length := by
+    have := lt_of_getElem? hc
+    rcases Nat.lt_or_ge j w.length with h | h
+    · exact h
+    · exact absurd ⟨h, this⟩ hj
+  have heq := hres.oldEq rfl j _ (List.getElem?_eq_getElem hjlt)
+  rw [hc] at heq
+  cases heq
+  obtain ⟨hwf1, hf2⟩ := wellFormed2_spec hwf (List.getElem?_eq_getElem hjlt)
+  apply cellOutX_of_followed
+  · intro p hp hB
+    have := wellFormed_spec hwf1 (List.getElem?_eq_getElem hjlt) p hp
+    omega
+  · intro p hp hB
+    have := hf2 p hp
+    omega
+
+/-- **C13_frame_orig_edited_ext3** (`Graph.clone()` / `GraphView.clone()` with
+    `allow_outer_scope_values=False`): every history of the 55 editing calls whose receivers and
+    arguments are not objects created by the clone leaves every cell created by the clone exactly
+    as it was. -/
+theorem C13_frame_orig_edited_ext3 {w w' : World} {fuel g : Nat} {r : Except Err Nat}
+    (hwf : wellFormed2 w = true)
+    (h : run (graphClone fuel false g) w = (r, w')) (es : List Edit3)
+    (hargs : ∀ e ∈ es, ∀ a ∈ e.args, ¬ (w.length ≤ a ∧ a < w'.length)) :
+    ∀ i, w.length ≤ i → i < w'.length → (runHistory3 es w').2[i]? = w'[i]? :=
+  frame_orig_edited_ext3 hwf (CloneResult.of_good (fun s hI => graphClone_good fuel g hI) h).1 es hargs
+
+/-- **C13_frame_orig_edited_model_ext3** (`Model.clone()`, hence `functionalize`). -/
+theorem C13_frame_orig_edited_model_ext3 {w w' : World} {fuel m : Nat} {r : Except Err Nat}
+    (hwf : wellFormed2 w = true)
+    (h : run (modelClone fuel m) w = (r, w')) (es : List Edit3)
+    (hargs : ∀ e ∈ es, ∀ a ∈ e.args, ¬ (w.length ≤ a ∧ a < w'.length)) :
+    ∀ i, w.length ≤ i → i < w'.length → (runHistory3 es w').2[i]? = w'[i]? :=
+  frame_orig_edited_ext3 hwf (CloneResult.of_good (fun s hI => modelClone_good fuel m hI) h).1 es hargs
+
+/-- non-vacuity: calls of the third alphabet succeed on the clone of `exWorld` (clone cells: 16 value
+    `x`, 21 value `y`, 22 the node, 25 the graph) and really change it -/
+example : ∀ e ∈ ([.setInputsSlice 25 0 1 [], .removeSafe 25 [], .sortDeep 25 [], .clearInits 25,
+      .renameValues [(16, "z")], .rauwMulti [(16, 21)] false] : List Edit3), ∀ a ∈ e.args, exWorld.length ≤ a := by
+  decide +kernel
+
+example : isOk ((runHistory3 [.setInputsSlice 25 0 1 []] (run (graphClone 4 false 0) exWorld).2).1.head!.map
+      fun _ => 0) = true := by
+  decide +kernel
+
+example : isOk ((runHistory3 [.renameValues [(16, "z")]] (run (graphClone 4 false 0) exWorld).2).1.head!.map
+      fun _ => 0) = true ∧
+    typeOfValueNamed (runHistory3 [.renameValues [(16, "z")]] (run (graphClone 4 false 0) exWorld).2).2 "z" =
+      [some 13] := by
+  decide +kernel
+
+example : isOk ((runHistory3 [.sortDeep 25 []] (run (graphClone 4 false 0) exWorld).2).1.head!.map
+      fun _ => 0) = true := by
+  decide +kernel
+
+/-- `replace_nodes_and_values` on the clone: the node `n` (22) is replaced by a new node `m` whose
+    output takes over the name `y` and the place among the graph outputs -/
+example : isOk ((runHistory3 [.replaceNode 25 22 "m" "Abs" [some 16] ["t"]]
+      (run (graphClone 4 false 0) exWorld).2).1.head!.map fun _ => 0) = true ∧
+    inputsOfNodesNamed (runHistory3 [.replaceNode 25 22 "m" "Abs" [some 16] ["t"]]
+      (run (graphClone 4 false 0) exWorld).2).2 "m" = [[some 16]] := by
+  decide +kernel
 
 end IrVerif.Clone
